@@ -29,13 +29,13 @@ OutVerdict(rec, k) ==
         nss == NsOf(rec, k)
         refuse == { ns \in nss : MustRefuse(rec.e, ns) }
         allow == nss \ refuse
-        R(v, env, ns) == [k |-> k, v |-> v, env |-> env, ns |-> ns]
-    IN IF out.r = "unser" THEN R("SKIP", 0, "")
+        R(v, env, ns) == [k |-> k, v |-> v, env |-> env, ns |-> ns, np |-> 0]
+    IN IF out.r = "unser" \/ ~InFragment(rec.e) THEN R("SKIP", 0, "")
        ELSE IF refuse # {} /\ ~IsRefusal(out)
-            THEN R(IF out.r = "err" THEN "crash-instead-of-refusal" ELSE "not-refused", 0, Pick(refuse))
+            THEN R(IF out.r = "err" THEN "raised" ELSE "not-refused", 0, Pick(refuse))
        ELSE IF allow = {} THEN R("REFUSED", 0, "")
        ELSE IF out.r = "err" THEN R(IF NowhereDefined(rec.e, rec.v) THEN "SKIP" ELSE "raised", 0, Pick(allow))
-       ELSE LET j == JudgeTree(rec.e, rec.v, out.e) IN R(j.v, j.env, Pick(allow))
+       ELSE LET j == JudgeTree(rec.e, rec.v, out.e) IN [R(j.v, j.env, Pick(allow)) EXCEPT !.np = j.np]
 
 \* Python's own evaluation of the returned tree against Eval (a check of the oracle's mirror,
 \* harness/envobjs.py, and of the evaluator; reported, never a verdict on differentiation)
@@ -55,8 +55,11 @@ Drift(rec, j) ==
 Report ==
     Idx <= Len(Recs) =>
       LET rec == Recs[Idx]
-          vs == [k \in 1..Len(rec.outs) |-> OutVerdict(rec, k)]
+          F(k) == OutVerdict(rec, k)
+          vs == MapSeq(Len(rec.outs), F)
           bad == { k \in 1..Len(vs) : vs[k].v \notin {"OK", "SKIP", "REFUSED"} }
+          RECURSIVE Pts(_)
+          Pts(k) == IF k > Len(vs) THEN 0 ELSE vs[k].np + Pts(k + 1)
           nDrift == Cardinality({ j \in 1..Len(rec.runs) : Drift(rec, j) })
           nEvalDiff == Cardinality({ k \in 1..Len(rec.outs) : EvalDiff(rec.outs[k]) })
       IN /\ \A k \in bad : PrintT(ToJson([id |-> rec.id, v |-> vs[k].v, k |-> k, env |-> vs[k].env, ns |-> vs[k].ns,
@@ -65,6 +68,7 @@ Report ==
              \/ PrintT(ToJson([id |-> rec.id, v |-> "SKIP"])))
          /\ (bad # {} \/ ~(\A k \in 1..Len(vs) : vs[k].v \in {"REFUSED", "SKIP"}) \/ ~(\E k \in 1..Len(vs) : vs[k].v = "REFUSED")
              \/ PrintT(ToJson([id |-> rec.id, v |-> "REFUSED"])))
+         /\ (Pts(1) = 0 \/ PrintT(ToJson([id |-> rec.id, v |-> "PTS", n |-> Pts(1)])))
          /\ (nDrift = 0 \/ PrintT(ToJson([id |-> rec.id, v |-> "DRIFT", n |-> nDrift])))
          /\ (nEvalDiff = 0 \/ PrintT(ToJson([id |-> rec.id, v |-> "EVALDIFF", n |-> nEvalDiff])))
 =============================================================================
